@@ -353,6 +353,6 @@ pub fn def_c10() -> CheckDef {
         bounds_quick: "conversions: <=3 nodes, <=2 hyperedges (arities up to 2->1), <=2 pending pairs, interfaces <=2 (<=7 node references); compose / commutation / in-place forms: pairs of diagrams with <=2 nodes, <=1 hyperedge, <=1 pending pair each, <=6 node references per pair; all wirings enumerated, labels symbolic",
         bounds_thorough: "conversions <=4 nodes / <=9 references; pairs <=3 nodes each / <=8 references",
         jobs: c10_jobs,
-        budget_s: (170, 1500),
+        budget_s: (110, 1500),
     }
 }
